@@ -51,6 +51,9 @@ func (ex *Exec) execCall(st *State, in *ssa.Call, b *ssa.BasicBlock, idx int) bo
 	}
 	switch f := ex.val(st, common.Value).(type) {
 	case *ClosureV:
+		if ex.intrinsic(st, in, f, args, k) {
+			return true
+		}
 		ex.callKnown(st, in, f, args, k)
 		return true
 	case Term:
@@ -181,7 +184,9 @@ func (ex *Exec) callOrdinal(fn *ssa.Function, in ssa.CallInstruction, name strin
 
 // invoke: interface method call.
 func (ex *Exec) invoke(st *State, site ssa.CallInstruction, recv Term, ifaceT types.Type, meth *types.Func, args []Value, k retK) {
-	ex.oblige(st, "nil", "", site.(ssa.Instruction), not(eq(recv, nilVal)), "method call on non-nil interface value")
+	if recv.Sort == SVal {
+		ex.oblige(st, "nil", "", site.(ssa.Instruction), not(eq(recv, nilVal)), "method call on non-nil interface value")
+	}
 	// statically known dynamic type: (box$N x)
 	if strings.HasPrefix(recv.S, "(box$") {
 		head, as := splitArgs(recv.S)
@@ -472,6 +477,12 @@ func (ex *Exec) applyContract(st *State, site ssa.CallInstruction, sel string, c
 		}
 		c.binds[fmt.Sprintf("arg%d", i)] = c.binds[n]
 	}
+	// the callee's ghost variables are existential from the caller's point of view
+	for _, g := range con.Ghosts {
+		if _, clash := c.binds[g.Name]; !clash {
+			c.binds[g.Name] = TT{T: ex.fresh("cg_"+g.Name, g.Sort)}
+		}
+	}
 	var siteI ssa.Instruction
 	if site != nil {
 		siteI = site.(ssa.Instruction)
@@ -618,4 +629,47 @@ func (ex *Exec) ctxAt(st *State, fr *Frame, b *ssa.BasicBlock, idx int) *SpecCtx
 		}
 	}
 	return c
+}
+
+// intrinsic models a few library functions by their defining behaviour in terms
+// of interface calls, so that statically known receivers resolve to their contracts.
+func (ex *Exec) intrinsic(st *State, site *ssa.Call, f *ClosureV, args []Value, k retK) bool {
+	name := shortName(f.Fn.String())
+	switch name {
+	case "io.WriteString", "fmt.Fprintf", "fmt.Fprint", "fmt.Fprintln":
+		w := ex.term(st, args[0])
+		var s Term
+		if name == "io.WriteString" {
+			s = ex.term(st, args[1])
+			ex.d.trust("io.WriteString(w, s) behaves as w.Write([]byte(s))")
+		} else {
+			s = ex.fresh("fmtout", SStr)
+			ex.d.trust(name + "(w, ...) formats to a string and calls w.Write once with it")
+		}
+		// p := []byte(s)
+		base := ex.newRef(st, "wsbuf")
+		hname, h := ex.slcHeap(st, SInt)
+		arr := ex.fresh("wsarr", arraySort(SInt, SInt))
+		n := app(SInt, "str_len", s)
+		st.assume(eq(app(SStr, "arr2str", arr, intLit(0), n), s))
+		ex.setHeap(st, hname, sto(h, base, arr))
+		p := mkSlc(base, intLit(0), n, n)
+		wt := site.Common().Args[0].Type()
+		iface, ok := types.Unalias(wt).Underlying().(*types.Interface)
+		if !ok {
+			return false
+		}
+		var meth *types.Func
+		for i := 0; i < iface.NumMethods(); i++ {
+			if iface.Method(i).Name() == "Write" {
+				meth = iface.Method(i)
+			}
+		}
+		if meth == nil {
+			return false
+		}
+		ex.invoke(st, site, w, wt, meth, []Value{p}, k)
+		return true
+	}
+	return false
 }
